@@ -4,7 +4,7 @@
 Each seeded/<id>/ holds patch.diff (applies to /repo's HEAD with `git apply`), the author's
 demonstration (demo/), and meta.json {"property": "Cxx", "also": ["Cyy", ...], ...}.
 
-usage: seeded.py [--only SUBSTR] [--seed N] [--tier quick|thorough] [--in-place] [--keep]
+usage: seeded.py [--only SUBSTR] [--ids A,B,C] [--seed N] [--tier quick|thorough] [--in-place] [--keep]
 
 default mode   : the patch is applied to a SCRATCH copy of the repository (/tmp/seed-repo) and a
                  scratch copy of the harness (/tmp/seed-harness) is built against it, so /repo and
@@ -58,6 +58,7 @@ def classify(r):
 
 def main():
     only, seed, tier, inplace, keep = None, 1, "quick", False, False
+    idlist = None
     a = sys.argv[1:]
     while a:
         x = a.pop(0)
@@ -71,9 +72,13 @@ def main():
             inplace = True
         elif x == "--keep":
             keep = True
+        elif x == "--ids":
+            idlist = a.pop(0).split(",")
     ids = sorted(d for d in os.listdir("/verif/seeded") if os.path.isfile(f"/verif/seeded/{d}/patch.diff"))
     if only:
         ids = [d for d in ids if only in d]
+    if idlist:
+        ids = [d for d in ids if d in idlist]
     try:
         results = json.load(open(RES))
     except Exception:
